@@ -70,7 +70,7 @@ func (prop) Drive(d *core.Driver) error {
 		srcs = append(srcs, corpus[i])
 	}
 	g := astgen.NewGen(d.Rand("gen"))
-	srcs = append(srcs, g.Generate(d.N(1600, 40000), "gen")...)
+	srcs = append(srcs, g.Generate(d.N(1600, 80000), "gen")...)
 	var cases []core.Case
 	const batch = 12
 	for i := 0; i < len(srcs); i += batch {
@@ -238,6 +238,8 @@ func (w *worker) tree(src astgen.Source, p astgen.Parsed) {
 
 	// --- clone, node by node (bottom-up attribution)
 	status := make([]byte, len(nodes)) // 0 ok, 1 bad
+	const workBudget = 1500000
+	work := 0
 	for i := len(nodes) - 1; i >= 0; i-- {
 		n := nodes[i].Node
 		tn := astrefl.TypeName(n)
@@ -258,6 +260,20 @@ func (w *worker) tree(src astgen.Source, p astgen.Parsed) {
 			status[i] = 1
 			continue
 		}
+		// Every oracle below costs time proportional to the subtree, so a very
+		// deep tree (a chain of thousands of operators) costs the square of its
+		// size: once the tree has used its budget only small subtrees and the
+		// top levels are still judged node by node; the whole-tree oracles
+		// further down always run.
+		size := 1
+		for j := i + 1; j < len(nodes) && nodes[j].Depth > nodes[i].Depth; j++ {
+			size++
+		}
+		if work > workBudget && size > 64 && nodes[i].Depth > 1 {
+			w.counts["nodes_skipped_large_subtree_after_budget"]++
+			continue
+		}
+		work += size
 		var clone ast.Node
 		val, panicked, stack := core.Guard(func() { clone = astutil.CloneNode(n) })
 		if panicked {
